@@ -118,7 +118,7 @@ func c10(c *Ctx) {
 // window, so arrival k is shifted by k x 250 ms before judging (sound as long as a sleep overshoots by less than that;
 // a change that lets lines through more than 250 ms early is still seen).
 func c10Wire(c *Ctx) {
-	for s := 0; s < c.Pick(2, 6); s++ {
+	for s := 0; s < c.Pick(3, 6); s++ {
 		n := c.R.Range(6, 9)
 		var lens []int
 		for i := 0; i < n; i++ {
@@ -126,7 +126,10 @@ func c10Wire(c *Ctx) {
 		}
 		desc := fmt.Sprintf("burst of %d lines of lengths %v over a real connection with flood protection on", n, lens)
 		c.Journal("C10 wire: " + desc)
-		sess, err := newSession(func(cfg *client.Config) { cfg.Flood = false }, nil)
+		// Config.Timeout (dial / ping; 0 = wait indefinitely) has no bearing on how long a line is held
+		tmo := []time.Duration{5 * time.Second, 0, 500 * time.Millisecond}[(s+int(c.Seed))%3]
+		desc += fmt.Sprintf(", Config.Timeout=%v", tmo)
+		sess, err := newSession(func(cfg *client.Config) { cfg.Flood = false; cfg.Timeout = tmo }, nil)
 		if err != nil {
 			c.Res.Inconclusive++
 			continue
